@@ -27,6 +27,13 @@ def pairings(tier, seed):
                                                families=("constrained", "gaussian_constrained"))
                  if c["constraint"] in ("ellipsoid", "sphere")
                  and c["metric"] in ("dense_pd", "identity")]
+    # a legal metric of extreme scale (heavy masses): the Gram matrix of the constraints is then
+    # of order 1e-8, which exposes absolute regularisers and absolute tolerances
+    sysc += [c for c in zoo.system_configs(seed, tier, all_convs=False, dims=(2, 3),
+                                           families=("constrained", "gaussian_constrained"),
+                                           derived_metrics=True)
+             if c["metric"] == "derived_heavy_identity"
+             and (not quick or c["constraint"] in ("ellipsoid", "sphere"))]
     tract = izoo.tractable_recipes(tier)
     for sc in sysc:
         if quick and sc["target"] != "quartic":
@@ -58,7 +65,7 @@ def pairings(tier, seed):
                                 out.append((sc2, r))
         else:
             if quick and sc["metric"] not in ("identity", "dense_pd", "none",
-                                              "low_rank_downdate"):
+                                              "low_rank_downdate", "derived_heavy_identity"):
                 continue
             for tight in (False, True):
                 for r in izoo.constrained_recipes(tight, (1, 2, 3)):
@@ -70,6 +77,11 @@ def configs(tier, seed):
     cfgs = []
     for sc, r in pairings(tier, seed):
         cfgs.append({"mode": "roundtrip", "system": sc, "integrator": r})
+    # multi-scale manifold with a huge free coordinate
+    for solver in izoo.PROJ_SOLVERS:
+        for n_inner in (1, 2):
+            cfgs.append({"mode": "wavy",
+                         "integrator": ["constrained_leapfrog", solver, n_inner, False]})
     # wrong-root deviations: constrained systems on the sphere
     for d in (2, 3):
         for metric in ("identity", "dense_pd"):
@@ -85,7 +97,7 @@ def configs(tier, seed):
     return cfgs
 
 
-def roundtrip(integ, q, p, direction, n, on_step=None):
+def roundtrip(integ, q, p, direction, n, on_step=None, zlimit=1e3):
     """Returns (status, info). status in ok / refused / foreign."""
     from mici.errors import IntegratorError
 
@@ -104,7 +116,7 @@ def roundtrip(integ, q, p, direction, n, on_step=None):
                     return "input_modified", {"reason": "step returned its input object"}
                 x = y
                 zmax = max(zmax, float(np.max(np.abs(x.pos))), float(np.max(np.abs(x.mom))))
-                if not np.isfinite(zmax) or zmax > 1e3:
+                if not np.isfinite(zmax) or zmax > zlimit:
                     return "diverged", {}
             if leg == 0:
                 x.dir = -x.dir
@@ -179,6 +191,80 @@ def check_roundtrip(cfg, acc):
                         else:
                             acc.outcome((F["integrator"], F["class"], F["solver"], eps, n,
                                          si, direction))
+    acc.count("cases")
+
+
+# ---------------------------------------------------------------------------------------------
+# multi-scale manifold: many constraint roots on a small length scale, one huge free coordinate
+# ---------------------------------------------------------------------------------------------
+
+WAVY_S = 1e-3
+WAVY_BIG = 1e7
+
+
+def wavy_system():
+    """q = (x, y, z): constraint y = s sin(3 x / s) (period ~2e-3, infinitely many roots along
+    any projection direction), z free and of magnitude 1e7."""
+    from mici import systems as S
+    s_ = WAVY_S
+
+    def c(q):
+        return np.array([q[1] - s_ * np.sin(3 * q[0] / s_)])
+
+    def jac(q):
+        return np.array([[-3 * np.cos(3 * q[0] / s_), 1.0, 0.0]])
+
+    def nld(q):
+        return 0.5 * (q[0] ** 2 + q[1] ** 2 + (q[2] - WAVY_BIG) ** 2)
+
+    def grad(q):
+        return np.array([q[0], q[1], q[2] - WAVY_BIG])
+
+    return S.DenseConstrainedEuclideanMetricSystem(
+        nld, c, grad_neg_log_dens=grad, jacob_constr=jac, dens_wrt_hausdorff=True), c, jac
+
+
+def check_wavy(cfg, acc):
+    system, c, jac = wavy_system()
+    rec = cfg["integrator"]
+    F = {"integrator": rec[0], "class": type(system).__name__, "solver": rec[1],
+         "metric": "identity"}
+    xs = [1.3447e-3 * k for k in (-2.0, -0.7, 0.3, 1.0, 1.9)]
+    for eps in (0.0005, 0.002, 0.01, 0.05):
+        integ = izoo.build_integrator(rec, system, eps)
+        for si, x in enumerate(xs):
+            q = np.array([x, WAVY_S * np.sin(3 * x / WAVY_S), WAVY_BIG + 0.25])
+            J = jac(q)[0]
+            for pi, praw in enumerate((np.array([1.0, 0.3, -0.5]), np.array([-0.6, 1.0, 0.8]))):
+                p = praw - J * (J @ praw) / (J @ J)
+                for direction in (1, -1):
+                    for n in (1, 2, 3):
+                        acc.count("evaluations")
+                        status, info = roundtrip(integ, q, p, direction, n, zlimit=1e9)
+                        acc.count("wavy_" + status)
+                        ctx = dict(eps=eps, state=si, mom=pi, dir=direction, n=n)
+                        if status == "foreign":
+                            acc.violation(driver="wavy", config=cfg,
+                                          fields={**F, "what": "foreign_exception:" + info["error"]},
+                                          kind="foreign_exception", observed=info["msg"],
+                                          expected="IntegratorError or a state", **ctx)
+                        elif status == "input_modified":
+                            acc.violation(driver="wavy", config=cfg,
+                                          fields={**F, "what": "input_state_modified"},
+                                          kind="input_modified", observed=info,
+                                          expected="input unchanged", **ctx)
+                        elif status == "ok":
+                            # absolute tolerance 20x below the length scale of the manifold; errors of the
+                            # loose solver tolerances (1e-8) are amplified by the curvature 9e3
+                            # (1e-3); rounding of the 1e7 coordinate is ~2e-9 per operation
+                            if info["err"] > 5e-5:
+                                acc.violation(driver="wavy", config=cfg,
+                                              fields={**F, "what": "not_reversible"},
+                                              kind="not_reversible", observed=info["err"],
+                                              expected="<= 5e-5 (manifold length scale 1e-3)",
+                                              **ctx)
+                            else:
+                                acc.outcome(("wavy", rec[1], rec[2], eps, n, si, pi, direction))
     acc.count("cases")
 
 
@@ -272,6 +358,8 @@ def check_wrong_root(cfg, acc):
 def check_config(cfg, acc):
     if cfg["mode"] == "roundtrip":
         check_roundtrip(cfg, acc)
+    elif cfg["mode"] == "wavy":
+        check_wavy(cfg, acc)
     else:
         check_wrong_root(cfg, acc)
     if len(acc.samples) < 3:
